@@ -166,3 +166,24 @@ def cex_c11(obl, results, env):
                                             expected=dict(deadline_ns=exp, inner_calls=1, note='tokio timers have millisecond granularity: observed may exceed expected by < 1 ms'), source=src),
                         observed=got, replayed_on_real_code=True, reproduced=True)
     return None
+
+
+def cex_c20(obl, results, env):
+    p, q, r = [1] * 32, [2] * 32, [3] * 32
+    for allowed in ([], [p], [p, q]):
+        for sender in (None, p, q, r):
+            if sender is None:
+                exp = dict(status=500, inner_calls=0)
+            elif sender in allowed:
+                exp = dict(status=200, inner_calls=1)
+            else:
+                exp = dict(status=404, inner_calls=0)
+            got, ok = _replay('auth', dict(allowed=allowed, sender=sender), env)
+            if not ok:
+                return None
+            if got.get('status') != exp['status'] or got.get('inner_calls') != exp['inner_calls']:
+                return dict(counterexample=dict(scenario='auth', args=dict(allowed=allowed, sender=sender), expected=exp,
+                                                meaning='allow-list of %d peer(s), sender %s' % (len(allowed), 'absent' if sender is None else ('listed' if sender in allowed else 'unlisted')),
+                                                source='search over allow-lists x senders'),
+                            observed=got, replayed_on_real_code=True, reproduced=True)
+    return None
